@@ -15,10 +15,13 @@ class VClock:
         import bacpypes.core as core
         self.now = [start]
         task._time = lambda: self.now[0]
-        # fresh singleton task manager
+        # fresh singleton task manager (the metaclass caches the instance: drop it first)
+        task._Trigger = None        # no wake-up pipe (it would leak two descriptors per TaskManager)
+        task.TaskManager._singleton_instance = None
         task._task_manager = None
         task._unscheduled_tasks = []
         self.tm = task.TaskManager()
+        assert task._task_manager is self.tm and self.tm.tasks == []
         core.deferredFns = []
         self.task, self.core = task, core
         self.steps = 0
